@@ -274,6 +274,37 @@ func c07Run(c *Ctx) {
 			}
 		}
 	}
+	// 5h. values that contain themselves as operands of every operator, index / property / call form and built-in
+	{
+		cpre := Lines(Var("cyc", "[0, 1]"), "cyc[1] = cyc;", Var("nd", "{v: 1}"), Var("kid", "{parent: nd}"), "nd.kid = kid;", Var("ring", "{}"), "ring.next = ring;", Var("arr", "[1, 2, 3]"), Var("ob", "{k: 1}"))
+		cv := []string{"cyc", "nd", "ring", "[cyc]", "{k: nd}", "kid"}
+		partners := []string{"1", `"s"`, "nil", "[]", "cyc", "nd", True()}
+		var forms []string
+		for _, op := range []string{"+", "-", "*", "/", "%", "**", "<", "<=", ">", ">=", "==", "!=", "&", "|", "^", "<<", ">>", "&&", "||"} {
+			forms = append(forms, "%a "+op+" %b", "%b "+op+" %a")
+		}
+		forms = append(forms, "-%a", "!%a", "~%a", "arr[%a]", "arr[%a] = 1", "%a[0]", "%a[%b]", "%a.k", "%a.k = %b", "%a()", "%a(%b)", "ob.k = %a", `"label = " + %a`, `%a + ""`, "[%a, %b]", "{k: %a}.k")
+		for _, n := range []string{"len", "append", "remove", "delete", "keys", "values", "abs", "sqrt", "pow", "sin", "cos", "tan", "min", "max", "round", "input"} {
+			forms = append(forms, BI(n, "%a"), BI(n, "%a", "%b"), BI(n, "%b", "%a"))
+		}
+		for _, f := range forms {
+			for _, a := range cv {
+				for _, b := range partners {
+					if !strings.Contains(f, "%b") && b != "1" {
+						continue
+					}
+					e := strings.ReplaceAll(strings.ReplaceAll(f, "%a", a), "%b", b)
+					src := cpre + Print(`"start"`) + "\n" + Print(e) + "\n"
+					if strings.Contains(f, " = ") {
+						src = cpre + Print(`"start"`) + "\n" + e + ";\n"
+					}
+					if c.Mine() {
+						c07Judge(c, &Case{Gen: "cyclic-operands", Src: src, Stdin: "in\n"})
+					}
+				}
+			}
+		}
+	}
 	// 6. nesting / size stress
 	depth := c.N(3000, 10000)
 	stress := []struct{ name, src string }{
